@@ -23,7 +23,11 @@ use std::collections::{BTreeMap, HashSet};
 use std::hash::{Hash, Hasher};
 use tensor_checkpoint::CheckpointConfig;
 
-const MAX_CP: usize = 2;
+static MAX_CP: std::sync::atomic::AtomicUsize = std::sync::atomic::AtomicUsize::new(2);
+/// the configured `max_checkpoints` of the routers built by this process
+fn max_cp() -> usize {
+    MAX_CP.load(std::sync::atomic::Ordering::Relaxed)
+}
 const NODE_IDS: u64 = 9;
 const EDGE_IDS: u64 = 4;
 
@@ -147,7 +151,7 @@ impl Sys {
     fn new() -> Sys {
         let mut r = QueryRouter::new();
         r.init_blob().expect("init_blob");
-        r.init_checkpoint_with_config(CheckpointConfig::default().with_max_checkpoints(MAX_CP).with_auto_checkpoint(false).with_interactive_confirm(false)).expect("init_checkpoint");
+        r.init_checkpoint_with_config(CheckpointConfig::default().with_max_checkpoints(max_cp()).with_auto_checkpoint(false).with_interactive_confirm(false)).expect("init_checkpoint");
         Sys { r, queries: battery_queries() }
     }
     fn exec(&self, s: &str) -> Result<QueryResult, query_router::RouterError> {
@@ -182,6 +186,9 @@ struct Model {
     node_creates: usize,
     edge_creates: usize,
     rollbacks: usize,
+    /// families that an earlier rollback of this history restored wrongly (sticky): their
+    /// post-rollback write probes are skipped, the cause has been reported at that earlier step
+    tainted: Vec<Fam>,
 }
 
 fn text_of(s: St, m: &Model) -> String {
@@ -282,7 +289,7 @@ impl Ctx<'_> {
         if !self.report {
             return;
         }
-        let mut replay = json!({"max_checkpoints": MAX_CP, "history": self.hist_text, "clock": "frozen; +1500 ms before every CHECKPOINT"});
+        let mut replay = json!({"max_checkpoints": max_cp(), "history": self.hist_text, "clock": "frozen; +1500 ms before every CHECKPOINT"});
         if let (Some(o), Some(e)) = (replay.as_object_mut(), extra.as_object()) {
             for (k, v) in e {
                 o.insert(k.clone(), v.clone());
@@ -337,7 +344,7 @@ fn check_list(sys: &Sys, m: &mut Model, cx: &mut Ctx, cause: &str, target: Optio
                 }
             }
             "checkpoint" => {
-                cx.viol("c08:retention-keeps-wrong-set", format!("max_checkpoints={MAX_CP}: reference keeps the newest {want:?}, CHECKPOINTS lists {got:?}"), json!({"phase": "list-after-checkpoint", "want": want, "listed": got}));
+                cx.viol("c08:retention-keeps-wrong-set", format!("max_checkpoints={}: reference keeps the newest {want:?}, CHECKPOINTS lists {got:?}", max_cp()), json!({"phase": "list-after-checkpoint", "want": want, "listed": got}));
             }
             _ => {
                 cx.viol("c08:data-statement-changes-checkpoint-list", format!("a {cause} statement changed the checkpoint list from {want:?} to {got:?}"), json!({"phase": "list-after-data-statement", "want": want, "listed": got}));
@@ -528,7 +535,7 @@ fn run(hist: &[St], selftest: bool, verbose: bool) -> Outcome {
                     Ok(_) => {
                         m.created += 1;
                         m.live.push(name.clone());
-                        if m.live.len() > MAX_CP {
+                        if m.live.len() > max_cp() {
                             m.live.remove(0);
                             cx.out.purges += 1;
                         }
@@ -560,6 +567,15 @@ fn run(hist: &[St], selftest: bool, verbose: bool) -> Outcome {
                     if ok {
                         m.rollbacks += 1;
                         check_list(&sys, &mut m, &mut cx, "rollback", Some(&name));
+                        if let Some(rec) = m.rec.get(&name) {
+                            let (rec, now) = (rec.cheap(), sys.observe(false));
+                            cx.out.reads += now.reads.len() as u64;
+                            for fam in [Fam::Rel, Fam::Graph, Fam::Vector] {
+                                if first_diff(&rec, &now, fam).is_some() && !m.tainted.contains(&fam) {
+                                    m.tainted.push(fam);
+                                }
+                            }
+                        }
                     }
                     continue;
                 }
@@ -582,7 +598,12 @@ fn run(hist: &[St], selftest: bool, verbose: bool) -> Outcome {
                 };
                 finish_key(&mut out, &after, &m);
                 let mut cx = Ctx { hist_text: texts.clone(), out: &mut out, report: true, selftest };
-                if let Some((now, bad, target_ok)) = r {
+                if let Some((now, mut bad, target_ok)) = r {
+                    for f in &m.tainted {
+                        if !bad.contains(f) {
+                            bad.push(*f);
+                        }
+                    }
                     tail_writes(&sys, &mut cx, &now, &bad);
                     if target_ok {
                         cx.out.tail_rollbacks += 1;
@@ -714,7 +735,7 @@ fn run_level(tasks: &[Vec<St>], workers: usize, selftest: bool, level: usize) ->
     let path = format!("{}/level-{level}.tasks", nvc::env::scratch_root());
     let body: String = tasks.iter().map(|h| h.iter().map(|s| code(*s).to_string()).collect::<Vec<_>>().join(",") + "\n").collect();
     std::fs::write(&path, body).expect("write tasks");
-    let r = nvc::par::spawn_workers::<Slice>(workers, &[format!("--tasks={path}")]);
+    let r = nvc::par::spawn_workers::<Slice>(workers, &[format!("--tasks={path}"), format!("--maxcp={}", max_cp())]);
     let _ = std::fs::remove_file(&path);
     r
 }
@@ -772,7 +793,7 @@ fn parse_hist(v: &Value) -> Vec<St> {
     out
 }
 
-/// Part S: n checkpoints within one clock second; the newest MAX_CP must be kept
+/// Part S: n checkpoints within one clock second; the newest max_checkpoints must be kept
 fn part_s(rep: &mut Report, seeds: u64) -> (u64, u64) {
     let mut cases = 0;
     let mut bad = 0;
@@ -793,13 +814,14 @@ fn part_s(rep: &mut Report, seeds: u64) -> (u64, u64) {
             cases += 1;
             let mut got = listed.unwrap_or_default();
             got.sort();
-            let want: Vec<String> = (n - MAX_CP + 1..=n).map(|i| format!("c{i}")).collect();
+            let mc = max_cp();
+            let want: Vec<String> = (n - mc + 1..=n).map(|i| format!("c{i}")).collect();
             if got != want {
                 bad += 1;
                 rep.violation(
                     "c08:retention-same-second",
-                    format!("{n} checkpoints c1..c{n} taken within one clock second, max_checkpoints={MAX_CP}: the newest are {want:?} but CHECKPOINTS lists {got:?} (created_at has 1 s resolution; ties are purged in storage order)"),
-                    json!({"part": "S", "max_checkpoints": MAX_CP, "history": (1..=n).map(|i| format!("CHECKPOINT 'c{i}'")).collect::<Vec<_>>(), "clock": "frozen, not advanced", "entropy_seed": seed, "want": want, "listed": got}),
+                    format!("{n} checkpoints c1..c{n} taken within one clock second, max_checkpoints={mc}: the newest are {want:?} but CHECKPOINTS lists {got:?} (created_at has 1 s resolution; ties are purged in storage order)"),
+                    json!({"part": "S", "max_checkpoints": mc, "history": (1..=n).map(|i| format!("CHECKPOINT 'c{i}'")).collect::<Vec<_>>(), "clock": "frozen, not advanced", "entropy_seed": seed, "want": want, "listed": got}),
                 );
             }
         }
@@ -828,6 +850,9 @@ fn main() {
     std::env::set_var("TOKIO_WORKER_THREADS", "1");
     nvc::env::clock_freeze(1_700_000_000);
 
+    if let Some(k) = rep.args.flag("maxcp").and_then(|s| s.parse().ok()) {
+        MAX_CP.store(k, std::sync::atomic::Ordering::Relaxed);
+    }
     if let (Some((me, n)), Some(path)) = (rep.args.worker, rep.args.flag("tasks")) {
         let tasks: Vec<Vec<St>> = std::fs::read_to_string(&path).expect("read tasks").lines().map(|l| l.split(',').filter(|x| !x.is_empty()).map(|x| decode(x.parse().unwrap())).collect()).collect();
         nvc::par::emit_result(&run_slice(&tasks, me, n, selftest));
@@ -859,6 +884,9 @@ fn main() {
     if let Some(path) = rep.args.replay.clone() {
         let body: Value = serde_json::from_str(&std::fs::read_to_string(&path).expect("read replay")).expect("replay json");
         let r = &body["replay"];
+        if let Some(k) = r["max_checkpoints"].as_u64() {
+            MAX_CP.store(k as usize, std::sync::atomic::Ordering::Relaxed);
+        }
         let mut n = 0;
         if r["part"] == "S" {
             n = part_s(&mut rep, 8).1;
@@ -882,15 +910,24 @@ fn main() {
     }
 
     let full_depth: usize = rep.args.flag("depth").and_then(|s| s.parse().ok()).unwrap_or(if thorough { 6 } else { 5 });
-    let extra_level = rep.args.flag("extra").map(|s| s == "1").unwrap_or(true);
+    // quick: every history of <= 5 statements; thorough: <= 6, plus the histories of 7 that end in CHECKPOINT/ROLLBACK
+    let extra_level = rep.args.flag("extra").map(|s| s == "1").unwrap_or(thorough);
     let alphabet = data_alphabet(thorough);
+    let workers = rep.args.flag("threads").and_then(|s| s.parse().ok()).unwrap_or(nvc::par::worker_count());
+    // (part name, max_checkpoints, full depth)
+    let mut configs: Vec<(&str, usize, usize)> = vec![("M", 2, full_depth)];
+    if thorough && rep.args.flag("depth").is_none() {
+        configs.push(("M_max1", 1, full_depth - 1));
+        configs.push(("M_max3", 3, full_depth - 1));
+    }
     rep.rule(&format!(
-        "M: BFS over statement histories on a fresh QueryRouter(max_checkpoints={MAX_CP}, auto-checkpoint off): alphabet = {} data statements {:?} + CHECKPOINT 'c<k>' + ROLLBACK TO 'c<j>' for every checkpoint the reference retains; every history of <= {full_depth} statements{}; a history is expanded further only if its state key (read battery, retained checkpoints with their recorded batteries, numbers of checkpoints / node creates / edge creates, min(rollbacks,2)) is new; after every ROLLBACK: battery == battery recorded before that CHECKPOINT, checkpoint list == reference, one write per engine succeeds and is readable, rollback to the same checkpoint again, to the other retained one and back. non-trivial = the database differed from the checkpoint image when ROLLBACK ran",
+        "M: BFS over statement histories on a fresh QueryRouter(max_checkpoints=K, auto-checkpoint off): alphabet = {} data statements {:?} + CHECKPOINT 'c<k>' + ROLLBACK TO 'c<j>' for every checkpoint the reference retains; every history of <= D statements{}; (K,D) in {:?}; a history is expanded further only if its state key (read battery, retained checkpoints with their recorded batteries, numbers of checkpoints / node creates / edge creates, min(rollbacks,2)) is new; after every ROLLBACK: battery == battery recorded before that CHECKPOINT, checkpoint list == reference, one write per engine succeeds and is readable, rollback to the same checkpoint again, to another retained one and back. non-trivial = the database differed from the checkpoint image when ROLLBACK ran",
         alphabet.len(),
         alphabet,
-        if extra_level { format!(", plus every history of {} statements ending in CHECKPOINT or ROLLBACK", full_depth + 1) } else { String::new() }
+        if extra_level { ", plus every history of D+1 statements ending in CHECKPOINT or ROLLBACK" } else { "" },
+        configs.iter().map(|c| (c.1, c.2)).collect::<Vec<_>>()
     ));
-    rep.rule("S: 3..5 CHECKPOINTs within one clock second x entropy seeds 1..8: the newest two must be listed");
+    rep.rule("S: 3..5 CHECKPOINTs within one clock second x entropy seeds 1..8, max_checkpoints=2: the newest two must be listed");
     rep.assume("reads are compared as sorted multisets; any error counts as one value 'failed' (error texts are not compared); internal row ids, checkpoint uuids and created_at are not compared");
     rep.assume("a checkpoint that the reference retains stays retained across data statements and rollbacks (the statement: retention is by count only)");
     rep.assume("state keys are 128-bit SipHash values of the canonical state; a collision would merge two states");
@@ -900,7 +937,43 @@ fn main() {
     rep.part("S_same_second_retention", json!({"cases": s_cases, "violating": s_bad}));
 
     // ---- part M
-    let workers = rep.args.flag("threads").and_then(|s| s.parse().ok()).unwrap_or(nvc::par::worker_count());
+    let mut vacuous = false;
+    for (name, k, d) in configs {
+        MAX_CP.store(k, std::sync::atomic::Ordering::Relaxed);
+        let st = explore(&mut rep, name, &alphabet, d, extra_level, workers, selftest);
+        if name == "M" && (st.states < 200 || st.nontrivial < 50 || st.nt_added == 0 || st.nt_removed == 0 || st.purges == 0) {
+            vacuous = true;
+        }
+        rep.add("states", st.states);
+        rep.add("transitions", st.statements);
+        rep.add("traces_validated_against_impl", st.replays);
+        rep.add("evaluations", st.evaluations);
+        rep.add("distinct_nontrivial", st.nontrivial);
+    }
+    rep.add("evaluations", s_cases);
+    rep.set("cpu_s_including_workers", json!(cpu_seconds()));
+    rep.set("explanation", json!("no model of the database: every statement runs on the real QueryRouter; the reference is the battery recorded when the checkpoint was taken plus a list of the newest K checkpoint names"));
+    if vacuous {
+        rep.machinery("vacuous exploration: too few distinct states / non-trivial rollbacks / retention purges");
+    }
+    if selftest {
+        eprintln!("[C08] --selftest: the reference was corrupted on purpose (embedding 'z' pretended to exist at every checkpoint)");
+    }
+    rep.finish();
+}
+
+struct Stats {
+    states: u64,
+    statements: u64,
+    replays: u64,
+    evaluations: u64,
+    nontrivial: u64,
+    nt_added: u64,
+    nt_removed: u64,
+    purges: u64,
+}
+
+fn explore(rep: &mut Report, part: &str, alphabet: &[St], full_depth: usize, extra_level: bool, workers: usize, selftest: bool) -> Stats {
     let mut kept_per_sig: BTreeMap<String, u64> = BTreeMap::new();
     let mut seen: HashSet<(u64, u64)> = HashSet::new();
     let mut data_states: HashSet<u64> = HashSet::new();
@@ -924,7 +997,7 @@ fn main() {
                 tasks.push(t);
             };
             if !restricted {
-                for &s in &alphabet {
+                for &s in alphabet {
                     push(s);
                 }
             }
@@ -948,7 +1021,7 @@ fn main() {
         outs.sort_by_key(|x| x.0);
         viols.sort_by_key(|x| x.0);
         if outs.len() != tasks.len() {
-            rep.machinery(format!("level {depth}: {} outcomes for {} tasks", outs.len(), tasks.len()));
+            rep.machinery(format!("{part} level {depth}: {} outcomes for {} tasks", outs.len(), tasks.len()));
         }
         for (_, v) in viols {
             kept_per_sig.entry(v.sig.clone()).and_modify(|c| *c += 1).or_insert(1u64);
@@ -989,7 +1062,7 @@ fn main() {
                             t
                         })
                         .collect();
-                    rep.sample(json!({"part": "M", "history": texts, "note": "node property k is the ordinal of successful creates; shown here assuming all succeeded"}));
+                    rep.sample(json!({"part": part, "max_checkpoints": max_cp(), "history": texts, "note": "node property k is the ordinal of successful creates; shown here assuming all succeeded"}));
                 }
                 if depth < last_level {
                     next.push((h.clone(), o.live_ordinals));
@@ -997,7 +1070,7 @@ fn main() {
             }
         }
         levels.push(json!({"depth": depth, "restricted_to_checkpoint_rollback": restricted, "histories_run": tasks.len(), "new_states": new_states}));
-        eprintln!("[C08] depth {depth}: {} histories, {new_states} new states, t={:.1}s", tasks.len(), nvc::env::real_now_s() - t_start);
+        eprintln!("[C08] {part} depth {depth}: {} histories, {new_states} new states, t={:.1}s", tasks.len(), nvc::env::real_now_s() - t_start);
         frontier = next;
     }
     for (sig, c) in &sig_counts {
@@ -1006,28 +1079,25 @@ fn main() {
         }
     }
     rep.part(
-        "M",
+        part,
         json!({
-            "full_depth": full_depth, "extra_restricted_level": extra_level, "levels": levels, "replays": replays,
+            "max_checkpoints": max_cp(), "full_depth": full_depth, "extra_restricted_level": extra_level, "levels": levels, "replays": replays,
             "distinct_states": seen.len(), "distinct_data_observations": data_states.len(),
             "rollback_checks": tot.rollback_checks, "distinct_nontrivial_rollbacks": nontrivial.len(),
             "nontrivial_with_data_added_after_checkpoint": nt_added, "nontrivial_with_data_removed_after_checkpoint": nt_removed,
             "retention_checks": tot.retention_checks, "retention_purges_expected": tot.purges,
             "tail_write_probes": tot.tail_writes, "tail_probes_skipped_because_already_wrong": tot.tail_skipped_tainted, "tail_rollbacks": tot.tail_rollbacks,
-            "violating_checks_by_signature": sig_counts, "worker_processes": workers, "cpu_s": cpu_seconds(),
+            "violating_checks_by_signature": sig_counts, "worker_processes": workers, "wall_s": nvc::env::real_now_s() - t_start,
         }),
     );
-    rep.add("states", seen.len() as u64);
-    rep.add("transitions", tot.statements);
-    rep.add("traces_validated_against_impl", replays);
-    rep.add("evaluations", tot.rollback_checks + tot.retention_checks + tot.tail_writes + s_cases);
-    rep.add("distinct_nontrivial", nontrivial.len() as u64);
-    rep.set("explanation", json!("no model of the database: every statement runs on the real QueryRouter; the reference is the battery recorded when the checkpoint was taken plus a two-element list of retained names"));
-    if seen.len() < 200 || nontrivial.len() < 50 || nt_added == 0 || nt_removed == 0 || tot.purges == 0 {
-        rep.machinery("vacuous exploration: too few distinct states / non-trivial rollbacks / retention purges");
+    Stats {
+        states: seen.len() as u64,
+        statements: tot.statements,
+        replays,
+        evaluations: tot.rollback_checks + tot.retention_checks + tot.tail_writes,
+        nontrivial: nontrivial.len() as u64,
+        nt_added,
+        nt_removed,
+        purges: tot.purges,
     }
-    if selftest {
-        eprintln!("[C08] --selftest: the reference was corrupted on purpose (embedding 'z' pretended to exist at every checkpoint)");
-    }
-    rep.finish();
 }
